@@ -699,6 +699,41 @@ def run(ctx: Ctx) -> Outcome:
         dist[f"label_lines:{'assert' if real == 'AssertionError' else 'cut' if any(x.endswith('...') for x in real) else 'whole'}"] = \
             dist.get(f"label_lines:{'assert' if real == 'AssertionError' else 'cut' if any(x.endswith('...') for x in real) else 'whole'}", 0) + 1
 
+    # ---- escaping: what svgwrite writes for a text node / an attribute value vs. the assumed escaper; re-parse
+    from lxml import etree as _et
+    from svgwrite import container as _svgc
+    from svgwrite import text as _svgt
+
+    ILLEGAL = ["\x00", "\x01", "\x08", "\x0e", "\x1b", "\ufffe", "\uffff"]
+    esc_reqs, esc_impl = [], []
+    for i in range(ctx.pick(300, 3000)):
+        r = ctx.rng.random()
+        s_ = gen_label(ctx.rng, ctx.rng.randint(0, 20)) if r < 0.6 else "".join(ctx.rng.choice(list("<>&\"' \t\n\rab;#1") + ["&amp;", "&#10;", "]]>"]) for _ in range(ctx.rng.randint(0, 12)))
+        if r > 0.9:
+            s_ += ctx.rng.choice(ILLEGAL) + "z"
+        if not s_ or any(0xD800 <= ord(c) <= 0xDFFF for c in s_):  # svgwrite drops an empty attribute; lone surrogates cannot be encoded
+            continue
+        tx = _svgt.TSpan(text=s_).tostring()
+        gx = _svgc.Group(class_=s_, debug=False).tostring()
+        mt = re.fullmatch(r"<tspan>(.*)</tspan>", tx, re.S) or re.fullmatch(r"<tspan ?/>()", tx)
+        mg = re.fullmatch(r'<g class="(.*)" ?/>', gx, re.S)
+        esc_reqs.append({"op": "svg.escape", "s": s_})
+        esc_impl.append((s_, mt.group(1) if mt else tx, mg.group(1) if mg else gx))
+        out.case(("escape", s_), None)
+        # monitor: a string of XML characters comes back from a real parser unchanged (CR in text is normalised by XML itself)
+        legal = all(c in "\t\n\r" or 0x20 <= ord(c) <= 0xD7FF or 0xE000 <= ord(c) <= 0xFFFD or ord(c) >= 0x10000 for c in s_)
+        try:
+            root = _et.fromstring(f"<r>{tx}{gx}</r>".encode("utf-8"))
+            back_t, back_a = (root[0].text or ""), root[1].get("class")
+            if legal and (back_t != s_.replace("\r\n", "\n").replace("\r", "\n") or back_a != s_):
+                out.find("svgwrite|text-not-preserved", f"{s_!r} read back as text {back_t!r} / attribute {back_a!r}", {"kind": "escape", "s": s_})
+            dist["escape:legal" if legal else "escape:illegal-but-parsed"] = dist.get("escape:legal" if legal else "escape:illegal-but-parsed", 0) + 1
+        except _et.XMLSyntaxError as e:
+            if legal:
+                out.find("svgwrite|not-well-formed", f"{s_!r}: {e}", {"kind": "escape", "s": s_})
+            else:  # outside the quantifier (labels over the XML-legal character set): recorded, not judged
+                dist["escape:illegal-char-passes-through-unfiltered"] = dist.get("escape:illegal-char-passes-through-unfiltered", 0) + 1
+
     # ---- model side
     if use_model:
         seq_answers = common.model(seq[0], driver="Svg")
@@ -733,6 +768,13 @@ def run(ctx: Ctx) -> Outcome:
                 if m["lines"] != real:
                     out.disagree("label-lines", {"labels": texts, "param": par}, real, m["lines"])
                 out.hit("label-model:" + ("cut" if any(x.endswith("...") for x in m["lines"]) else "whole"))
+        for (s_, it, ia), ans in zip(esc_impl, common.model(esc_reqs, driver="Svg")):
+            m = ans.get("ok")
+            if m is None or m["text"] != it or m["attr"] != ia:
+                out.disagree("escape", s_, {"text": it, "attr": ia}, m if m is not None else ans)
+            elif m["legal"] and "\r" not in s_ and m["unescText"] != s_:
+                out.disagree("escape-roundtrip", s_, s_, m["unescText"])
+            out.hit("escape-model:" + ("legal" if m and m["legal"] else "illegal"))
         answers = common.model(requests + wrap_reqs + [{"op": "svg.dump-tables"}], driver="Svg")
         for (case, impl), ans in zip(pending, answers[: len(requests)]):
             m = ans.get("ok")
@@ -807,6 +849,21 @@ def replay(ctx: Ctx, case: dict) -> str | None:
         real = chelpers.word_wrap(case["text"], case["width"])
         if [w for ln in real for w in ln.split()] != case["text"].split():
             return f"word_wrap({case['text']!r}, {case['width']}) -> {real!r} changes the words"
+        return None
+    if case.get("kind") == "escape":
+        from lxml import etree as _et
+        from svgwrite import container as _svgc
+        from svgwrite import text as _svgt
+
+        s_ = case["s"]
+        tx, gx = _svgt.TSpan(text=s_).tostring(), _svgc.Group(class_=s_, debug=False).tostring()
+        print(f"replay: {s_!r} written as {tx!r} / {gx!r}")
+        try:
+            root = _et.fromstring(f"<r>{tx}{gx}</r>".encode("utf-8"))
+        except _et.XMLSyntaxError as e:
+            return f"not well-formed: {e}"
+        if (root[0].text or "") != s_.replace("\r\n", "\n").replace("\r", "\n") or root[1].get("class") != s_:
+            return f"read back as {root[0].text!r} / {root[1].get('class')!r}"
         return None
     if case.get("kind") == "label-lines":
         from capellambse.svg import drawing as sdrawing
